@@ -21,15 +21,51 @@ def main():
         os.environ['VERIF_REPLAY'] = '1'      # a replay re-runs one case: its evidence goes to .scratch/evidence
         payload = json.load(open(a.replay))
         replay = payload.get('failure', {}).get('case', payload)
+    import time
+    t0 = time.time()
     crc = 0
+    drift = None
     if replay is None:
+        from . import core
+        drift = core.source_drift()
+        core.SOURCE_DRIFT = drift
         crc = run_corpus(mod, a.pid, a.tier, seed)
     try:
         rc = mod.run(a.tier, seed, replay=replay)
     except Exception:
         traceback.print_exc()
         sys.exit(2)
+    if drift and rc == 0 and crc == 0 and a.tier == 'quick':
+        rc = look_harder(mod, a.pid, a.tier, seed, drift, t0)
     sys.exit(max(rc, crc) if 2 not in (rc, crc) else 2)
+
+
+def look_harder(mod, pid, tier, seed, drift, t0):
+    """the code under verification differs from the recorded baseline (baseline/source_hashes.json): the quick tier
+    is repeated with further seeds (at most two, within about 150 s).  The difference itself is not an alarm."""
+    import io, contextlib, time
+    print('%s: source differs from the baseline in %s: extra seeds' % (pid, ', '.join(drift[:4]) +
+                                                                       (' ...' if len(drift) > 4 else '')))
+    os.environ['VERIF_REPLAY'] = '1'          # evidence of the extra runs goes to .scratch/evidence
+    try:
+        for k in (1, 2):
+            if time.time() - t0 > 150:
+                break
+            buf = io.StringIO()
+            try:
+                with contextlib.redirect_stdout(buf):
+                    rc = mod.run(tier, seed + 7919 * k, replay=None)
+            except Exception:
+                traceback.print_exc()
+                return 0
+            if rc == 1:
+                for line in buf.getvalue().split('\n'):
+                    if line.startswith('VIOLATION') or ' tier=' in line:
+                        print(line)
+                return 1
+    finally:
+        del os.environ['VERIF_REPLAY']
+    return 0
 
 
 def run_corpus(mod, pid, tier, seed):
